@@ -1,7 +1,10 @@
 (* PinCols.v — model of mokapot/parsers/pin.py read_percolator + helpers.find_column +
    utils.create_chunks / convert_targets_column (C10).  Definitions only.
    Column names are strings (ASCII); table cells are opaque integers (the harness maps distinct
-   cell values to integers); a NaN cell is known to the model only through [nan_cols]. *)
+   cell values to integers).  Two interfaces: [pc_read] is told [nan_cols], the columns that hold a
+   missing value somewhere (column chunks only); [pc_read_rc] gets one missingness bit per cell and
+   follows the row chunks of the missing-value scan as well (R2.19).  [pc_nan_cols] derives the first
+   view from the second (Proofs/PinColsP.v: read_rc_as_read). *)
 From Mokaverif Require Import Model.Base.
 Open Scope Z_scope.
 
@@ -178,3 +181,87 @@ Definition pc_read (chunk_cols : nat) (columns : list str) (o : pc_opts)
            (label_is_bool : bool) (rows : list (list Z)) (nan_cols : list str)
   : result pc_dataset :=
   bind (pc_classify columns o) (fun k => pc_scan chunk_cols k columns label_is_bool rows nan_cols).
+
+(* ====================== the row chunks of the missing-value scan (R2.19) ======================
+   drop_missing_values_and_fill_spectra_dataframe reads every column slice in row chunks
+   (reader.get_chunked_data_iterator(CHUNK_SIZE_ROWS_FOR_DROP_COLUMNS, columns=slice)). *)
+
+(* one table row: the cells and, parallel to them, "this cell is missing" (isna) *)
+Definition pc_rowm : Type := (list Z * list bool)%type.
+
+Definition pc_miss (columns : list str) (rm : pc_rowm) (c : str) : bool :=
+  match pc_index c columns with Some i => nth i (snd rm) false | None => false end.
+
+(* the old interface as a view of the new one: the columns with a missing cell somewhere *)
+Definition pc_nan_cols (columns : list str) (rowsm : list pc_rowm) : list str :=
+  filter (fun c => existsb (fun rm => pc_miss columns rm c) rowsm) columns.
+
+(* what the reader's iterator yields: rows[i:i+c] for i in range(0, len(rows), c); for a table
+   without rows pandas.read_csv(chunksize=) yields ONE empty chunk, pyarrow iter_batches yields none
+   ([empty_chunk]: true for the text readers, false for the Parquet reader) *)
+Definition pc_row_chunks {A} (empty_chunk : bool) (chunk_rows : nat) (rows : list A) : list (list A) :=
+  match rows with
+  | [] => if empty_chunk then [[]] else []
+  | _ => pc_chunks chunk_rows rows
+  end.
+
+(* feature.isna().any(axis=0) of one row chunk: one boolean per column of [cols] *)
+Definition pc_any_row (columns cols : list str) (ch : list pc_rowm) : list bool :=
+  map (fun c => existsb (fun rm => pc_miss columns rm c) ch) cols.
+
+Definition pc_or_row (a b : list bool) : list bool := map (fun p => fst p || snd p) (combine a b).
+
+(* feature[spectra + [label]] of one row chunk: per row (spectrum cells, label cell) *)
+Definition pc_frame (columns : list str) (k : pc_class) (ch : list pc_rowm) : list (list Z * Z) :=
+  map (fun rm => (map (pc_cell columns (fst rm)) (k_spectra k), pc_cell columns (fst rm) (k_label k))) ch.
+
+(* drop_missing_values_and_fill_spectra_dataframe for ONE column slice [sl]:
+   (frames appended to df_spectra_list, columns of the slice to drop).
+   Per row chunk: the identifier cells are appended when the slice holds all identifier columns,
+   and one row isna().any(axis=0) is added to na_mask; at the end na_mask.any(axis=0). *)
+Definition pc_slice_rc (columns : list str) (k : pc_class) (chunks : list (list pc_rowm)) (sl : list str)
+  : list (list (list Z * Z)) * list str :=
+  let ids := k_spectra k ++ [k_label k] in
+  let has_ids := pc_subset ids sl in
+  let cols := if has_ids then filter (fun c => negb (mem_str c ids)) sl else sl in
+  let frames := if has_ids then map (pc_frame columns k) chunks else [] in
+  let na_mask := map (pc_any_row columns cols) chunks in
+  let any := fold_left pc_or_row na_mask (map (fun _ => false) cols) in
+  (frames, map fst (filter snd (combine cols any))).
+
+(* read_percolator from the column slices on, with the per-slice worker as a parameter
+   (Parallel(...)(delayed(drop_missing_values_and_fill_spectra_dataframe)(..) for c in feat_slices)) *)
+Definition pc_scan_with (slice_fn : list (list pc_rowm) -> list str -> list (list (list Z * Z)) * list str)
+           (chunk_cols : nat) (k : pc_class) (columns : list str) (label_is_bool : bool)
+           (chunks : list (list pc_rowm)) : result pc_dataset :=
+  let features := filter (fun c => negb (mem_str c (k_nonfeat k))) columns in
+  let ids := k_spectra k ++ [k_label k] in
+  if Nat.eqb chunk_cols 0 then Err EValue else      (* Python: ZeroDivisionError, see pc_scan_rc *)
+  let slices := pc_chunks_with_ids features ids chunk_cols in
+  let res := map (slice_fn chunks) slices in
+  let df_spectra_list := flat_map fst res in
+  let to_drop := flat_map snd res in
+  match df_spectra_list with
+  | [] => Err EValue                               (* pd.concat([]) : No objects to concatenate *)
+  | _ =>
+    let df := concat df_spectra_list in
+    bind (pc_convert_targets label_is_bool (map snd df)) (fun targets =>
+    Ok (pc_mk k (filter (fun c => negb (mem_str c to_drop)) features) (map fst df) targets))
+  end.
+
+(* the scan over the row chunks the reader yields.  Chunk sizes 0: the column chunk size is used first
+   ((len(data) + len(ids)) % 0: ZeroDivisionError, for which [err] has no constructor: reported as
+   EValue here as in pc_scan; every theorem assumes chunk_cols >= 1), the row chunk size next
+   (pandas: "'chunksize' must be an integer >=1", pyarrow: "batch_size must be greater than zero":
+   ValueError from the first slice). *)
+Definition pc_scan_rc (empty_chunk : bool) (chunk_rows chunk_cols : nat) (k : pc_class) (columns : list str)
+           (label_is_bool : bool) (rowsm : list pc_rowm) : result pc_dataset :=
+  if Nat.eqb chunk_cols 0 then Err EValue else
+  if Nat.eqb chunk_rows 0 then Err EValue else
+  pc_scan_with (pc_slice_rc columns k) chunk_cols k columns label_is_bool
+               (pc_row_chunks empty_chunk chunk_rows rowsm).
+
+Definition pc_read_rc (empty_chunk : bool) (chunk_rows chunk_cols : nat) (columns : list str) (o : pc_opts)
+           (label_is_bool : bool) (rowsm : list pc_rowm) : result pc_dataset :=
+  bind (pc_classify columns o) (fun k =>
+    pc_scan_rc empty_chunk chunk_rows chunk_cols k columns label_is_bool rowsm).
